@@ -101,9 +101,11 @@ def check_step(ctx: Ctx, fi: FuncInfo) -> Dict[str, str]:
         raise AnchorError(fi.short, "per-wire symbol list (wn = check_or_add(w)) not found")
     table = None
     chain_if = [s for s in loop.body if isinstance(s, ast.If)]
-    if len(chain_if) != 1:
-        raise AnchorError(fi.short, "expected one if/elif chain over gate classes")
-    chain, els = q.if_chain(chain_if[0])
+    if not chain_if:
+        raise AnchorError(fi.short, "expected a dispatch over gate classes in the gate loop")
+    chain, els = q.dispatch_chain(loop.body)
+    if els is None or len(chain) < 4:
+        raise AnchorError(fi.short, "the dispatch over gate classes is neither one if/elif chain nor a sequence of terminating ifs")
     ctx.check(bool(els) and isinstance(els[-1], ast.Raise), "DP-CLOSED", fi, "unknown gates raise", "", "a gate without a rule is skipped silently: its effect is missing from the expressions", chain_if[0])
     handled: Dict[str, str] = {}
     arity = {"X": 1, "CX": 2, "CCX": 3, "MCX": None}
